@@ -217,7 +217,9 @@ CHECKS = {
          "bytes) over synthetic worlds; after every key mode, buffer, page, highlighted item, loaded window, loader flags, frame "
          "count, frame height AND the text of the frame on the screen equal Ui.update/run_task/last_frame; exhaustive short sequences. "
          "reachable_from_inv / every_frame_from: the invariants hold in every state reachable from the two states State.Subcommand "
-         "starts the program in, and every frame emitted on the way was computed without a panic.",
+         "starts the program in, and every frame emitted on the way was computed without a panic. keys_dropped_while_loading / held_open_lands: "
+         "every key that arrives while a page load is in flight is dropped and the load lands on the state it was started from (exercised by page "
+         "loads HELD by a silent server while keys, Esc, commands and resizes arrive, the initial load included).",
     note="Refinement to an abstract thread (ThreadFacts): under world-coherence hypotheses stating what parents/children/harvest "
          "return on a thread whose structure is known, and preload >= 1, opening an item shows a window around it (open_refines) and "
          "after every k / j / g, once loads have settled, the highlighted item is the one the abstract walk over the whole thread "
